@@ -117,6 +117,15 @@ type NilDeref struct{ Pos token.Pos }
 
 func (d *NilDeref) Error() string { return "nil pointer dereference (the real code would panic)" }
 
+// VarPtr is a pointer to a local variable of basic type.
+type VarPtr struct{ v *variable }
+
+// Set stores through the pointer.
+func (p *VarPtr) Set(v Value) { p.v.v = v }
+
+// Get loads through the pointer.
+func (p *VarPtr) Get() Value { return p.v.v }
+
 // TypedNil is a nil pointer stored in an interface value: it is not equal to
 // nil, and a type assertion to its pointer type succeeds and yields nil.
 type TypedNil struct{ T string }
@@ -281,12 +290,19 @@ const (
 	ctlFallthrough
 )
 
+// deferred is a pending deferred call without arguments (the only form supported).
+type deferred struct {
+	call *ast.CallExpr
+	env  *env
+}
+
 type frame struct {
 	in      *Interp
 	info    *types.Info
 	env     *env
 	results []Value
 	named   []types.Object // named results
+	defers    []deferred
 	label     string // label of a pending labelled break/continue
 	nextLabel string // label attached to the statement about to run
 }
@@ -364,6 +380,25 @@ func (in *Interp) callDecl(info *types.Info, recvList *ast.FieldList, ftype *ast
 	c, err := f.block(body, false)
 	if err != nil {
 		return nil, err
+	}
+	if len(f.defers) > 0 {
+		if c == ctlReturn && len(f.named) > 0 && len(f.results) == len(f.named) {
+			for i, o := range f.named {
+				f.env.lookup(o).v = f.results[i]
+			}
+		}
+		for i := len(f.defers) - 1; i >= 0; i-- {
+			d := f.defers[i]
+			f.env = d.env
+			if _, err := f.call(d.call); err != nil {
+				return nil, err
+			}
+		}
+		if c == ctlReturn && len(f.named) > 0 && len(f.results) == len(f.named) {
+			for i, o := range f.named {
+				f.results[i] = f.env.lookup(o).v
+			}
+		}
 	}
 	if c == ctlReturn {
 		return f.results, nil
@@ -454,6 +489,12 @@ func (f *frame) stmt(s ast.Stmt) (ctl, error) {
 	case *ast.ExprStmt:
 		_, err := f.exprMulti(s.X)
 		return ctlNone, err
+	case *ast.DeferStmt:
+		if len(s.Call.Args) != 0 {
+			return ctlNone, unsup(s.Pos(), "defer of a call with arguments")
+		}
+		f.defers = append(f.defers, deferred{call: s.Call, env: f.env})
+		return ctlNone, nil
 	case *ast.ReturnStmt:
 		if len(s.Results) == 0 {
 			for _, o := range f.named {
@@ -1115,6 +1156,10 @@ func (f *frame) store(l ast.Expr, v Value) error {
 				return nil
 			}
 		}
+		if vp, ok := pv.(*VarPtr); ok && vp != nil {
+			vp.Set(copyVal(v))
+			return nil
+		}
 		return unsup(l.Pos(), "store through pointer")
 	case *ast.IndexExpr:
 		xv, err := f.expr(l.X)
@@ -1354,6 +1399,9 @@ func (f *frame) exprMulti(e ast.Expr) ([]Value, error) {
 		if o, ok := v.(*Obj); ok && o != nil && !o.Opaque {
 			return []Value{&Rec{Fields: o.Fields, T: o.T}}, nil
 		}
+		if vp, ok := v.(*VarPtr); ok && vp != nil {
+			return []Value{vp.Get()}, nil
+		}
 		if o, ok := v.(*Obj); (ok && o == nil) || v == nil {
 			return nil, &NilDeref{Pos: e.Pos()}
 		}
@@ -1398,6 +1446,10 @@ func (f *frame) exprMulti(e ast.Expr) ([]Value, error) {
 					if rec, ok := vr.v.(*Rec); ok && rec != nil {
 						// pointer to a local struct variable: share its fields
 						return []Value{&Obj{Name: "&" + id.Name, Fields: rec.Fields, T: rec.T}}, nil
+					}
+					switch vr.v.(type) {
+					case int64, string, bool, float64:
+						return []Value{&VarPtr{v: vr}}, nil
 					}
 				}
 			}
